@@ -397,13 +397,15 @@ class Gen:
                 op = self.gen_op(cseq, D, qids, names_pool, case, len(ops), n_ops)
                 if op is None:
                     continue
-                # run on the shadow; keep the op only if it is accepted there
+                # run on the shadow; keep the op only if it is accepted there.  A
+                # refused call may leave traces in the shadow: rebuild it then.
                 env_c = self.env0
                 try:
                     exec_concrete(cseq, op, env_c, cmaps)
                 except Exception:  # noqa: BLE001
-                    if r.random() < 0.03 and not any(o.get("op") != "declare_var" and uses_var(o) for o in ops + [op]):
-                        ops.append(op)  # an occasional refused call (raises at call time, skipped)
+                    cseq = impl.Sequence(impl.build_register(creg_spec), D)
+                    for o in ops:
+                        exec_concrete(cseq, o, env_c, cmaps)
                     continue
                 ops.append(op)
                 if op["op"] == "measure":
@@ -497,6 +499,10 @@ class Gen:
         has_target = bool(cseq._schedule[name].slots)
         if local and not has_target:
             kind = "target"
+        elif in_eom and r.random() < 0.6:
+            kind = "eom"
+        elif ch.supports_eom() and not in_eom and r.random() < 0.2:
+            kind = "eom"
         if kind == "eom":
             if not ch.supports_eom():
                 kind = "add"
